@@ -559,11 +559,13 @@ fn get_fields(
                         ParamValue::Binary(s) => prepared_query.add_param(String::from(s), true),
                         ParamValue::Null => unreachable!(),
                     };
+                    //the selector applies to the stored value or, when the row was written before the field existed, to the default value
                     q.push_str(&format!(
-                        "'{}', Ifnull({},{}",
+                        "'{}', Ifnull({},{})->{}",
                         &field.name(),
-                        select,
-                        default
+                        js_field(&field.field.short_name),
+                        default,
+                        selector
                     ))
                 } else {
                     q.push_str(&format!("'{}',{}", &field.name(), select))
